@@ -46,6 +46,18 @@ impl Rng {
     pub fn chance(&mut self, num: u64, den: u64) -> bool {
         self.below(den) < num
     }
+    /// partition shaped like header traffic: mostly 4- and 6-byte calls, with odd-length and empty
+    /// calls in between so that headers land on every key position (also across the key wrap)
+    pub fn header_partition(&mut self, len: usize) -> Vec<usize> {
+        const SH: [usize; 16] = [4, 6, 4, 4, 6, 4, 6, 1, 2, 3, 5, 7, 0, 4, 6, 4];
+        let mut out = Vec::new();
+        let mut left = len;
+        while left > 0 {
+            let s = (*self.pick(&SH)).min(left);
+            out.push(s); left -= s;
+        }
+        out
+    }
     /// random partition of `len` into chunk sizes (empty chunks included now and then)
     pub fn partition(&mut self, len: usize) -> Vec<usize> {
         let mut out = Vec::new();
